@@ -52,6 +52,7 @@ DEFAULT_KNOBS: Dict[str, Any] = {
     "validate_params": [True, True, False],
     "p_probe": 0.0,
     "p_register_late": 0.15,
+    "p_gc": 0.1,
     "cpu": True,
     "swarm": True,
 }
@@ -150,6 +151,8 @@ def gen_attempt(r: Any, kn: dict, faults: bool, sync: bool, has_ctx: bool) -> di
         out = ["nores"]
     elif oc == "requeue" and has_ctx and not sync:
         out = ["requeue"]
+    elif oc == "reject" and has_ctx and not sync:
+        out = ["reject"]
     else:
         out = ["ret"]
     if not sync and kn["p_never"] and r.random() < kn["p_never"]:
@@ -228,6 +231,8 @@ def gen_worker_script(rs: int, knobs: Optional[dict] = None) -> dict:
                 hs: Dict[str, Any] = {"async": rc.random() < 0.5}
                 if hs["async"]:
                     hs["us"] = duration(rc, {"zero": 3, "tiny": 3, "short": 2})
+                    if rc.random() < 0.25:
+                        hs["ret"] = rc.choice(["future", "lazy"])     # a sync method returning a Task / a lazy awaitable
                 if h in ("pre_send", "pre_execute") and rc.random() < kn["p_mw_replace"]:
                     hs["replace"] = True
                 hooks[h] = hs
@@ -323,6 +328,8 @@ def gen_worker_script(rs: int, knobs: Optional[dict] = None) -> dict:
                 m["save"] = [{"delay_us": duration(r, {"tiny": 2, "short": 3, "medium": 1})}]
         if r.random() < kn["p_ack_delay"]:
             m["ack"] = {"delay_us": duration(r, {"tiny": 3, "short": 2, "medium": 1}), "async": r.random() < 0.5}
+            if m["ack"]["async"] and r.random() < 0.3:
+                m["ack"]["ret"] = r.choice(["future", "lazy"])        # the ack callable returns a Future / a lazy awaitable
         if faults and kn.get("p_ack_fail") and r.random() < kn["p_ack_fail"]:
             m["ack"] = {"fail": True, "async": r.random() < 0.5}      # the broker's ack callable raises (connection lost)
         if cfg["ackable"] == "mixed":
@@ -362,6 +369,15 @@ def gen_worker_script(rs: int, knobs: Optional[dict] = None) -> dict:
         ops.append(op)
         if ro.random() < 0.8:
             ops.append({"op": "restart", "w": w, "after": ["crash", 1], "plus_us": ro.choice([0, 1, 1000, 500_000])})
+    rg = stream(rs, "gc")
+    if rg.random() < kn.get("p_gc", 0.1):
+        # garbage collections at scripted instants while task bodies wait on futures nothing else references
+        for m in msgs:
+            for a in m.get("attempts", []):
+                if rg.random() < 0.6:
+                    a["weak_wait"] = True
+        for _ in range(rg.randint(1, 3)):
+            ops.append(gen_trigger(rg, {"op": "gc"}, n, last))
     script: Dict[str, Any] = {"world": "worker", "run_seed": rs, "config": cfg, "tasks": tasks, "messages": msgs, "ops": ops,
                               "cpu": {"on": bool(kn["cpu"]) and rc.random() < 0.8}}
     if kn["p_probe"] and rc.random() < kn["p_probe"]:
